@@ -7,6 +7,8 @@ mod ctx;
 mod elem;
 mod model;
 mod monitor;
+mod ops;
+mod recv;
 mod thin;
 
 mod wl_access;
@@ -154,7 +156,7 @@ fn main() {
         let limit = if scale == Scale::Vg { 60_000 } else { 2_000 };
         spawn_watchdog(prop.clone(), viollog.clone(), limit);
     }
-    let r = catches(|| match prop.as_str() {
+    let r = catches_top(|| match prop.as_str() {
         "C01" => wl_hist::run_c01(&mut ctx),
         "C02" => wl_access::run_c02(&mut ctx),
         "C03" => wl_access::run_c03(&mut ctx),
